@@ -124,6 +124,12 @@ def gen_regplan(rng, n, family=None, cfg=None):
         nd = ir.add("call", args=args, kwargs=kwargs, scope=_scope(rng), fname=f"fn{rng.randrange(4)}")
         for d in deps:
             ir.deps.append((d, nd.id))
+        if preds and rng.random() < 0.12:
+            # an explicit dependency on something that is already upstream through other nodes (possibly through stored values that are up to
+            # date and therefore cut the path): it still has to be honoured when that upstream call executes in the run
+            up = [u for u in ir.ancestors(preds) if u not in preds and ir.nodes[u].kind == "call" and rp.role.get(u) in ("plain", "stored")]
+            if up:
+                ir.deps.append((rng.choice(sorted(up)), nd.id))
         anc_reg = any(rp.role[p] in REGISTERED or reg_anc(p) for p in preds)
         has_reg_anc[nd.id] = anc_reg
         r = rng.random()
@@ -341,6 +347,20 @@ class Session:
         for j in gone:
             self.stores[j].delete()
         return gone
+
+    def eff_anc(self, exp, i):
+        """What node i depends on IN THIS RUN: dependencies are followed through nodes that execute or are rebuilt, not through stored values
+        that are up to date (those are simply read from their store)."""
+        seen, st = set(), list(self.preds[i])
+        while st:
+            u = st.pop()
+            if u in seen:
+                continue
+            seen.add(u)
+            if u in self.reg and not exp.ood.get(u):
+                continue
+            st.extend(self.preds[u])
+        return {u for u in seen if not (u in self.reg and not exp.ood.get(u))}
 
     def lit_successor_calls(self, n):
         """calls reachable from n through one or more unregistered literals only"""
